@@ -287,6 +287,9 @@ SPECS = {
     "D": dict(n=33, ncent=3, weights=True, mode="name", cs=10, dseed=31, nbins=3, cross_rand="both"),
     "E": dict(n=52, ncent=5, weights=False, mode="centers", cs=13, dseed=47, nbins=2, cross_rand="both"),
     "F": dict(n=24, ncent=2, weights=True, mode="centers", cs=5, dseed=53, nbins=3, cross_rand="ref"),
+    # a last chunk with fewer records than chunk-processing ranks (some ranks get an empty share)
+    "G": dict(n=41, ncent=2, weights=True, mode="centers", cs=20, dseed=61, nbins=2, cross_rand="ref"),
+    "H": dict(n=26, ncent=3, weights=False, mode="name", cs=8, dseed=67, nbins=3, cross_rand="both"),
 }
 
 
@@ -322,6 +325,8 @@ def pipeline_worlds(ctx):
         dict(size=5, mw=None, mode="eager", policy="high", seed=0, spec="E", tag="reader-last"),
         dict(size=2, mw=1, mode="eager", policy="low", seed=0, spec="F", tag="F13a-load", ops=["load"], create=False),
         dict(size=3, mw=1, mode="sync", policy="random", seed=7, spec="A", tag="root-fallback-pipeline", create=False),
+        dict(size=4, mw=None, mode="eager", policy="random", seed=3, spec="G", tag="short-last-chunk"),
+        dict(size=5, mw=None, mode="sync", policy="random", seed=4, spec="H", tag="short-last-chunk"),
     ]
     n = ctx.n(28, 350) - len(worlds)
     names = sorted(SPECS)
